@@ -1,10 +1,10 @@
 """C05 — instance approximation yields exactly the connected components."""
 from __future__ import annotations
 import numpy as np
-import impl, gen, oracle
+import forms, impl, gen, oracle
 from impl import quiet, SemanticPair, ConnectedComponentsInstanceApproximator, CCABackend
 
-RULE = ("backend given as enum member or by member name (incl. requests that differ from the dimensionality default); int64 maps using the largest int64 value as a label next to multiples of 256; half of the cases through long-lived approximator objects shared across inputs of different dimensionality; pairs with the same foreground divided into different semantic labels; 1-D/2-D/3-D semantic maps built from objects with 1-3 semantic labels (incl. labels >= 256 and 65536), diagonal "
+RULE = ("the public attribute cca_backend re-assigned after construction; the two maps as views of one buffer / read-only / ndarray subclass; maps without any background voxel; backend given as enum member or by member name (incl. requests that differ from the dimensionality default); int64 maps using the largest int64 value as a label next to multiples of 256; half of the cases through long-lived approximator objects shared across inputs of different dimensionality; pairs with the same foreground divided into different semantic labels; 1-D/2-D/3-D semantic maps built from objects with 1-3 semantic labels (incl. labels >= 256 and 65536), diagonal "
         "(edge/corner) contacts and multi-label adjacency, dtypes {uint8,uint16,int32,int64}, negatives (must be rejected) x "
         "backend {default, cc3d, scipy}; exhaustive {0,1,2}-maps of shape 2x3 (quick) / 3x3, 2x2x2 (thorough); "
         "non-trivial = face and full connectivity, or label-aware and label-blind reading, give different partitions")
@@ -14,10 +14,16 @@ _SHARED = {}
 _HIST = []
 
 
-def approx(pred, ref, backend, shared=False, form="enum"):
+def approx(pred, ref, backend, shared=False, form="enum", first_backend="same"):
     """`shared`: reuse one long-lived approximator object per backend setting across inputs of different
     dimensionality (an approximator must not remember anything from earlier calls)"""
     be = backend if (form == "name" and backend is not None) else impl.BACKEND[backend]     # by member name or as enum member
+    if first_backend != "same":
+        # the object is constructed with another backend and the public attribute is re-assigned afterwards
+        ap = ConnectedComponentsInstanceApproximator(cca_backend=impl.BACKEND[first_backend])
+        ap.cca_backend = be
+        with quiet():
+            return ap.approximate_instances(SemanticPair(pred, ref))
     if shared:
         ap = _SHARED.setdefault((backend, form), ConnectedComponentsInstanceApproximator(cca_backend=be))
     else:
@@ -48,9 +54,9 @@ def check_side(arr, out, n_reported, backend_eff):
     return f, comps
 
 
-def one_case(ctx, pred, ref, backend, src, shared=False, form="enum"):
+def one_case(ctx, pred, ref, backend, src, shared=False, form="enum", first_backend="same"):
     inp = {"shape": list(pred.shape), "dtype": str(pred.dtype), "pred": gen.arr_json(pred.astype(np.int64)),
-           "ref": gen.arr_json(ref.astype(np.int64)), "backend": backend, "backend_form": form, "src": src, "shared_approximator": shared,
+           "ref": gen.arr_json(ref.astype(np.int64)), "backend": backend, "backend_form": form, "first_backend": first_backend, "src": src, "shared_approximator": shared,
            "history": list(_HIST[-3:]) if shared else []}
     if shared:
         _HIST.append([list(pred.shape), backend])
@@ -58,7 +64,9 @@ def one_case(ctx, pred, ref, backend, src, shared=False, form="enum"):
     eff = backend or ("cc3d" if pred.ndim >= 3 else "scipy")
     neg = (pred < 0).any() or (ref < 0).any()
     try:
-        up = approx(pred, ref, backend, shared, form)
+        up = approx(pred, ref, backend, shared, form, first_backend)
+        if first_backend != "same":
+            ctx.count("backend_reassigned_after_construction")
         if form == "name":
             ctx.count("backend_given_by_name")
     except AssertionError:
@@ -131,8 +139,24 @@ def run_cases(ctx, n, tag):
             ref = np.zeros_like(pred)
             ref[fg] = [rng.choice([1, 2, 3]) for _ in range(int(fg.sum()))]
             ctx.count("same_foreground_different_labels")
-        one_case(ctx, pred, ref, backend, f"{tag}{i}", shared=rng.random() < 0.5,
-                 form="name" if backend is not None and rng.random() < 0.35 else "enum")
+        if rng.random() < 0.12:
+            # no background voxel at all, several class values
+            labs = rng.choice([[1, 2], [1, 2, 3], [5, 9]])
+            pred = np.array([rng.choice(labs) for _ in range(int(np.prod(shape)))], dtype).reshape(shape)
+            if rng.random() < 0.5:
+                ref = np.array([rng.choice(labs) for _ in range(int(np.prod(shape)))], dtype).reshape(shape)
+            ctx.count("no_background_voxel")
+        r2 = rng.random()
+        if r2 < 0.15:
+            fb = rng.choice([b for b in (None, "cc3d", "scipy") if b != backend])
+            one_case(ctx, pred, ref, backend, f"{tag}{i}.reassigned", first_backend=fb)
+        elif r2 < 0.3 and pred.dtype == ref.dtype:
+            for name, p2, q2 in forms.pair_forms(pred, ref, which=[rng.choice(["channels_last", "even_odd", "window", "readonly", "subclass"])]):
+                ctx.count("form." + name)
+                one_case(ctx, p2, q2, backend, f"{tag}{i}.{name}")
+        else:
+            one_case(ctx, pred, ref, backend, f"{tag}{i}", shared=rng.random() < 0.5,
+                     form="name" if backend is not None and rng.random() < 0.35 else "enum")
 
 
 def exhaustive(ctx, shape):
@@ -215,4 +239,4 @@ def replay(ctx, rec):
     i = rec["input"]
     dt = np.dtype(i["dtype"])
     one_case(ctx, np.array(i["pred"]).reshape(i["shape"]).astype(dt), np.array(i["ref"]).reshape(i["shape"]).astype(dt), i["backend"], "replay",
-             form=i.get("backend_form", "enum"))
+             form=i.get("backend_form", "enum"), first_backend=i.get("first_backend", "same"))
